@@ -184,6 +184,14 @@ func (w *weaver) stmt(s ast.Stmt) {
 	case *ast.ForStmt:
 		w.block(n.Body)
 	case *ast.RangeStmt:
+		// a range over a map named with -maprange goes through verifRangeMap: keys in
+		// sorted order, permuted by the simulator (Go leaves the order open; the
+		// simulator owns that choice like every other one)
+		if mapRanges[exprText(n.X)] {
+			n.X = &ast.CallExpr{Fun: ast.NewIdent("verifRangeMap"), Args: []ast.Expr{n.X}}
+			mapRangeCount++
+		}
+
 		w.block(n.Body)
 	case *ast.SwitchStmt:
 		for _, c := range n.Body.List {
@@ -224,10 +232,15 @@ const hookFile = `// Code generated by /verif/tools/weave. DO NOT EDIT.
 
 package %s
 
-import "sync"
+import (
+	"cmp"
+	"slices"
+	"sync"
+)
 
 // Hook variables set by the deterministic scheduler in /verif.
 var (
+	VerifMapOrder      func(n int) []int
 	VerifYield         func(site string)
 	VerifLock          func(m any, site string, write bool)
 	VerifUnlock        func(m any, write bool)
@@ -262,6 +275,42 @@ func verifCondWait(c *sync.Cond) {
 	c.Wait()
 }
 
+// verifRangeMap iterates m in an order the simulator decides: sorted keys,
+// permuted by VerifMapOrder when it is set.
+func verifRangeMap[K cmp.Ordered, V any](m map[K]V) func(yield func(K, V) bool) {
+	return func(yield func(K, V) bool) {
+		keys := make([]K, 0, len(m))
+		for k := range m {
+			keys = append(keys, k)
+		}
+
+		slices.Sort(keys)
+
+		if VerifMapOrder != nil {
+			perm := VerifMapOrder(len(keys))
+			if len(perm) == len(keys) {
+				ordered := make([]K, len(keys))
+				for i, p := range perm {
+					ordered[i] = keys[p]
+				}
+
+				keys = ordered
+			}
+		}
+
+		for _, k := range keys {
+			v, ok := m[k]
+			if !ok {
+				continue // deleted while iterating
+			}
+
+			if !yield(k, v) {
+				return
+			}
+		}
+	}
+}
+
 func verifCondBroadcast(c *sync.Cond) {
 	if VerifCondBroadcast != nil {
 		VerifCondBroadcast(c)
@@ -288,11 +337,23 @@ func VerifWeaveHooks_%s(y func(string), l func(any, string, bool), u func(any, b
 }
 `
 
+var (
+	mapRanges     = map[string]bool{}
+	mapRangeCount int
+)
+
 func main() {
 	out := flag.String("out", "", "output directory")
+	maps := flag.String("maprange", "", "comma-separated expressions: a range over one of them is a map range the simulator orders")
 	repo := flag.String("repo", "/repo", "repository root")
 
 	flag.Parse()
+
+	for _, m := range strings.Split(*maps, ",") {
+		if m != "" {
+			mapRanges[m] = true
+		}
+	}
 
 	if *out == "" {
 		fmt.Fprintln(os.Stderr, "weave: -out is required")
@@ -370,5 +431,5 @@ func main() {
 		os.Exit(2)
 	}
 
-	fmt.Printf("weave: %d files, %d yield points -> %s\n", len(overlay), yields, filepath.Join(*out, "overlay.json"))
+	fmt.Printf("weave: %d files, %d yield points, %d ordered map ranges -> %s\n", len(overlay), yields, mapRangeCount, filepath.Join(*out, "overlay.json"))
 }
